@@ -31,10 +31,12 @@ fn main() {
         cases.push(("replay".into(), read_replay(p)));
     } else {
         if let Some(dir) = &args.corpus { cases.extend(read_corpus(dir)); }
-        let n = args.budget(2500, 40000);
+        let n = args.budget(2500, 24000);
         for i in 0..n {
             let mut r = Rng::for_case(args.seed, i);
-            let g = GenCfg { universe: *r.pick(&[2, 3, 5, 9]), n_ops: 10 + r.usize(19), malformed: 6 };
+            // thorough: every fourth history is long (40..90 data ops)
+            let n_ops = if args.thorough() && i % 4 == 0 { 40 + r.usize(51) } else { 10 + r.usize(19) };
+            let g = GenCfg { universe: *r.pick(&[2, 3, 5, 9]), n_ops, malformed: 6 };
             cases.push((format!("gen{i}"), gen_case(&mut r, &g)));
         }
     }
